@@ -118,8 +118,8 @@ theorem esc_cmds (fuel : Nat) (ih : Esc fuel) : ∀ s cs, Within (loops s.stack)
   | [c] => simp only [execCommands]; exact ih.cmd s c
   | c :: d :: t =>
     simp only [execCommands]
-    have h1 := ih.members s (c :: d :: t) 0
-    generalize execPipeMembers fuel s (c :: d :: t) 0 = x at *
+    have h1 := ih.members s.enterJc (c :: d :: t) 0
+    generalize execPipeMembers fuel s.enterJc (c :: d :: t) 0 = x at *
     obtain ⟨s1, r⟩ := x
     cases r with
     | continue_ => exact within_applyErrexit _ _
@@ -236,6 +236,7 @@ theorem esc_cmd (fuel : Nat) (ih : Esc fuel) : ∀ s c, Within (loops s.stack) (
   | ret n => simp only [execCmd]; exact within_finishSimple _ _ _ trivial
   | exit n => simp only [execCmd]; exact within_finishSimple _ _ _ trivial
   | setE on => simp only [execCmd]; exact within_finishSimple _ _ _ trivial
+  | setM on => simp only [execCmd]; exact within_finishSimple _ _ _ trivial
   | unknown => simp only [execCmd]; exact within_finishSimple _ _ _ trivial
   | tick c k => simp only [execCmd]; split <;> exact within_finishSimple _ _ _ trivial
   | call name =>
